@@ -269,6 +269,18 @@ pub fn run(args: &Args) -> i32 {
         )
     };
 
+    // a hot backup is another `&self` operation allowed under the reader lock: one cheap read
+    // first (its hooked calls are this thread's scheduling points), then the backup, whose
+    // content is part of the observation
+    let q_backup: Q = |db| {
+        let r = format!("{:?}", db.exec(QueryBuilder::select().aliases().ids(1).query()).map_err(|e| e.description));
+        let p = format!("{}.bk", db.filename());
+        let b = db.backup(&p).map_err(|e| e.description);
+        let content = std::fs::read(&p).unwrap_or_default();
+        let _ = std::fs::remove_file(&p);
+        format!("{r}|backup {b:?} {} bytes {:016x}", content.len(), engine::fnv(&content))
+    };
+
     let quick = args.tier == engine::Tier::Quick;
     let mut hs: Vec<Harness> = vec![];
     {
@@ -325,7 +337,9 @@ pub fn run(args: &Args) -> i32 {
     let b = if quick { 1 } else { 2 };
     add_q("db_values_vs_search", vec![vec![q_values], vec![q_search]], b);
     add_q("db_alias_vs_index_vs_tx", vec![vec![q_alias], vec![q_index], vec![q_tx]], b);
+    add_q("db_values_vs_hot_backup", vec![vec![q_values], vec![q_backup]], b);
     if !quick {
+        add_q("db_backup_vs_search_vs_tx", vec![vec![q_backup], vec![q_search], vec![q_tx]], 1);
         add_q("db_2_queries_each", vec![vec![q_values, q_tx], vec![q_search, q_alias]], 1);
     }
 
@@ -400,6 +414,7 @@ pub fn run(args: &Args) -> i32 {
         report.set(&format!("schedules_{}", h.name), json!({"threads": h.threads, "preemption_bound": h.bound, "executions": n, "cap_hit": n >= cap}));
     }
     report.sample(json!({"harness": "storage_2x2_overlapping", "threads": ["read(0,16); read(100,8)", "read(8,16); read(100,8)"], "scheduling_points": "try_lock / open / seek / read of every FileStorage::read"}));
+    report.sample(json!({"harness": "db_values_vs_hot_backup", "threads": ["select ids [1,2]", "select aliases ids 1; backup(<file>.bk) - observation includes the backup's bytes"], "shared": "Arc<RwLock<DbFile>>, read lock per call"}));
     report.sample(json!({"harness": "db_alias_vs_index_vs_tx", "threads": ["select aliases ids [1,2]", "search index k = 1", "read transaction: edge_count(2), keys(-5)"], "shared": "Arc<RwLock<DbFile>>, read lock per query"}));
     report.set("states", json!(schedules.len().max(1)));
     report.set("transitions", json!(total_points.load(Ordering::SeqCst).max(1)));
